@@ -25,6 +25,10 @@ enum Act {
     Shared(Option<(u8, u64)>),
     /// n directly nested calls through a recursive function (markers only at the bottom)
     Deep { id: u32, n: u32 },
+    /// a function that makes no calls and keeps seeded locals in stack memory around the wrapper
+    /// (kind 0: are_enabled, 1: without_interrupts whose closure sums the locals, 2: the same
+    /// behind an ordering comparison of two seeded values)
+    Leaf { kind: u8, seed: u64 },
     Enable,
     Disable,
     AreEnabled,
@@ -43,6 +47,7 @@ fn parse(v: &Value) -> Act {
         "nest2" => Act::Nest2 { id: v["id"].as_u64().unwrap_or(0) as u32 },
         "probe3" => Act::Probe3,
         "deep" => Act::Deep { id: v["id"].as_u64().unwrap_or(0) as u32, n: v["n"].as_u64().unwrap_or(1) as u32 },
+        "leaf" => Act::Leaf { kind: v["kind"].as_u64().unwrap_or(0) as u8, seed: v["seed"].as_u64().unwrap_or(0) },
         "shared" => Act::Shared(v["vector"].as_u64().map(|x| (x as u8, v["after"].as_u64().unwrap_or(1)))),
         "enable" => Act::Enable,
         "disable" => Act::Disable,
@@ -58,7 +63,7 @@ fn gen_body(rng: &mut Rng, depth: u32, next_id: &mut u32, top: bool) -> Vec<Valu
     let n = if top { rng.range(1, 6) } else { rng.below(4) };
     let mut out = vec![];
     for _ in 0..n {
-        let k = if top { rng.weighted(&[60, 0, 20, 20, 20, 30, 30, 20, 10, 20, 20, 30, 3]) } else { rng.weighted(&[4, 3, 0, 0, 2, 0, 3, 2, 2, 2, 2, 0, 0]) };
+        let k = if top { rng.weighted(&[60, 0, 20, 20, 20, 30, 30, 20, 10, 20, 20, 30, 3, 25]) } else { rng.weighted(&[4, 3, 0, 0, 2, 0, 3, 2, 2, 2, 2, 0, 0, 2]) };
         out.push(match k {
             0 if depth < 6 => {
                 let id = *next_id;
@@ -79,6 +84,7 @@ fn gen_body(rng: &mut Rng, depth: u32, next_id: &mut u32, top: bool) -> Vec<Valu
                 json!({"op": "nest2", "id": id})
             }
             10 => json!({"op": "probe3"}),
+            13 => json!({"op": "leaf", "kind": rng.below(3), "seed": rng.next()}),
             12 => {
                 let id = *next_id;
                 *next_id += 1;
@@ -154,6 +160,8 @@ fn work(n: u32) -> u32 {
 struct Obs {
     are_enabled: Vec<bool>,
     rets_ok: bool,
+    /// the seeded locals of a call-free caller read back unchanged
+    locals_ok: bool,
     /// (unlocked peek, value taken inside the critical section)
     shared: Vec<(u64, u64)>,
 }
@@ -180,6 +188,86 @@ fn deep(n: u32, id: u32, reached: &mut u32) {
             mark(id * 2);
             mark(id * 2 + 1);
         }
+    })
+}
+
+const LEAF_N: usize = 12;
+
+#[inline(always)]
+fn lcg(x: u64) -> u64 {
+    x.wrapping_mul(6364136223846793005).wrapping_add(1442695040888963407)
+}
+
+fn leaf_expected(seed: u64) -> u64 {
+    let (mut x, mut h) = (seed, 0u64);
+    for _ in 0..LEAF_N {
+        x = lcg(x);
+        h = h.rotate_left(7) ^ x;
+    }
+    h
+}
+
+/// No calls in here: on a target with a red zone the locals may live below the stack pointer.
+#[inline(never)]
+fn leaf_are_enabled(seed: u64) -> (bool, u64) {
+    let mut a = [0u64; LEAF_N];
+    let mut x = seed;
+    unsafe {
+        for k in 0..LEAF_N {
+            x = lcg(x);
+            core::ptr::write_volatile(a.as_mut_ptr().add(k), x);
+        }
+        let e = interrupts::are_enabled();
+        let mut h = 0u64;
+        for k in 0..LEAF_N {
+            h = h.rotate_left(7) ^ core::ptr::read_volatile(a.as_ptr().add(k));
+        }
+        (e, h)
+    }
+}
+
+#[inline(never)]
+fn leaf_without(seed: u64) -> u64 {
+    let mut a = [0u64; LEAF_N];
+    let mut x = seed;
+    unsafe {
+        for k in 0..LEAF_N {
+            x = lcg(x);
+            core::ptr::write_volatile(a.as_mut_ptr().add(k), x);
+        }
+        interrupts::without_interrupts(|| {
+            let mut h = 0u64;
+            for k in 0..LEAF_N {
+                h = h.rotate_left(7) ^ core::ptr::read_volatile(a.as_ptr().add(k));
+            }
+            h
+        })
+    }
+}
+
+/// `if pending > low_water { without_interrupts(..) }`: the call directly follows an ordering
+/// comparison, and the closure ends in different arithmetic
+#[inline(never)]
+fn leaf_after_compare(seed: u64) -> u64 {
+    let (p, q) = (seed >> 40, (seed >> 16) & 0xff_ffff);
+    if p > q {
+        leaf_body(seed)
+    } else if p < q / 2 {
+        leaf_body(seed) ^ 0
+    } else {
+        leaf_expected(seed)
+    }
+}
+
+#[inline(always)]
+fn leaf_body(seed: u64) -> u64 {
+    interrupts::without_interrupts(|| {
+        let (mut x, mut h) = (seed, 0u64);
+        for _ in 0..LEAF_N {
+            x = lcg(x);
+            h = h.rotate_left(7) ^ x;
+        }
+        h
     })
 }
 
@@ -229,6 +317,20 @@ fn exec(acts: &[Act], obs: &mut Obs) {
                 });
                 if r != 8 {
                     obs.rets_ok = false;
+                }
+            }
+            Act::Leaf { kind, seed } => {
+                let h = match kind {
+                    0 => {
+                        let (e, h) = leaf_are_enabled(*seed);
+                        obs.are_enabled.push(e);
+                        h
+                    }
+                    1 => leaf_without(*seed),
+                    _ => leaf_after_compare(*seed),
+                };
+                if h != leaf_expected(*seed) {
+                    obs.locals_ok = false;
                 }
             }
             Act::Probe3 => {
@@ -338,6 +440,7 @@ impl Model {
                     self.are_enabled.extend_from_slice(&[f, !f, f]);
                 }
                 Act::Shared(_) => {}
+                Act::Leaf { kind: 0, .. } => self.are_enabled.push(self.iflag),
                 Act::Enable => {
                     self.seq.push(Ev::Sti);
                     self.iflag = true;
@@ -362,7 +465,7 @@ impl Model {
 }
 
 fn has_wi(acts: &[Act]) -> bool {
-    acts.iter().any(|a| matches!(a, Act::Wi { .. } | Act::Pair | Act::AreEnabled | Act::Nest2 { .. } | Act::Probe3 | Act::Shared(_) | Act::Deep { .. }))
+    acts.iter().any(|a| matches!(a, Act::Wi { .. } | Act::Pair | Act::AreEnabled | Act::Nest2 { .. } | Act::Probe3 | Act::Shared(_) | Act::Deep { .. } | Act::Leaf { .. }))
 }
 
 pub fn run(rp: &Replay, st: &mut Stats) -> Option<Violation> {
@@ -391,7 +494,7 @@ pub fn run(rp: &Replay, st: &mut Stats) -> Option<Violation> {
         let if_before = world().cpu.iflag;
         let sys_before = world().cpu.rflags_sys;
         let pending_before = !world().cpu.irq_pending.is_empty();
-        let mut obs = Obs { are_enabled: vec![], rets_ok: true, shared: vec![] };
+        let mut obs = Obs { are_enabled: vec![], rets_ok: true, locals_ok: true, shared: vec![] };
         let q0 = unsafe { core::ptr::read_volatile(&raw const SHARED_Q) };
         let r = sut_call("c17", || {
             if use_monitor {
@@ -434,6 +537,9 @@ pub fn run(rp: &Replay, st: &mut Stats) -> Option<Violation> {
         }
         if !obs.rets_ok {
             return Some(viol(&["C17"], "closure-result", i, "without_interrupts did not return the closure's result".into()));
+        }
+        if !obs.locals_ok {
+            return Some(viol(&["C17"], "caller-locals-changed", i, format!("a function without calls kept 12 seeded words in its stack frame around the wrapper; they (or the closure's result computed from them) read back changed: {a:?}")));
         }
         if obs.are_enabled != model.are_enabled {
             return Some(viol(&["C17"], "are_enabled", i, format!("are_enabled() returned {:?}, the simulated flag was {:?}", obs.are_enabled, model.are_enabled)));
@@ -517,6 +623,7 @@ pub fn run(rp: &Replay, st: &mut Stats) -> Option<Violation> {
             Act::Probe3 => 10,
             Act::Shared(_) => 11,
             Act::Deep { .. } => 12,
+            Act::Leaf { kind, .. } => 13 + *kind as u64,
             Act::Enable => 2,
             Act::Disable => 3,
             Act::AreEnabled => 4,
